@@ -36,6 +36,7 @@ SELECTIONS = [
     {'lexicon': 'b:1'}, {'lexicon': 'b:1', 'expand': ''}, {'lexicon': 'a:1', 'expand': 'e:1'}, {'lexicon': 'a:1', 'expand': '*'},
     {'lexicon': 'a:1 b:1', 'expand': 'e:1 u:1'}, {'lang': 'en'}, {'lang': 'de'}, {'lexicon': '*:1', 'lang': 'en'},
     {'lexicon': 'a:1 e:1 b:1'}, {'lexicon': 'zz'}, {'lexicon': 'a:1', 'expand': 'zz'}, {'lexicon': 'u:1 a:2'},
+    {'lexicon': 'e:1', 'lang': 'en'},
 ]
 
 
